@@ -96,6 +96,8 @@ def collect(facts, crates, kinds):
     register_adts(facts)
     counters.register(facts)
     fieldinv.register(facts)
+    from .. import retsum
+    retsum.register(facts)
     out = []
     nfn = 0
     for c in crates:
@@ -191,6 +193,8 @@ def make_baseline():
     status/reason of entries that still exist.  Never called by a check."""
     from ..facts import Facts, CONFIGS
     old = load_baseline()
+    rp = os.path.join(VERIF, "rules", "site_reasons.json")
+    reasons = json.load(open(rp)) if os.path.exists(rp) else {}
     new = {}
     for cfg in CONFIGS:
         facts = Facts(cfg)
@@ -202,15 +206,19 @@ def make_baseline():
             for key, ss in groups.items():
                 e = sec.setdefault(key, {"n": {}, "status": "untriaged", "file": ss[0]["body"].file})
                 e["n"][cfg] = len(ss)
-                o = old.get(rid, {}).get(key)
-                if o and o.get("status") == "confirmed":
+                why = reasons.get(rid, {}).get(key)
+                if why:
                     e["status"] = "confirmed"
-                    e["reason"] = o.get("reason", "")
+                    e["reason"] = why
     for rid in new:
         new[rid] = dict(sorted(new[rid].items()))
     with open(BASELINE, "w") as fh:
         json.dump(new, fh, indent=0, sort_keys=False)
         fh.write("\n")
+    for rid, rs in reasons.items():
+        for key in rs:
+            if key not in new.get(rid, {}):
+                print(f"note: reason for {rid} {key[:90]} matches no baseline entry (site proved or gone)")
     for rid, sec in new.items():
         print(rid, "entries", len(sec), "sites(union)", sum(e["n"].get("union", 0) for e in sec.values()),
               "confirmed", sum(1 for e in sec.values() if e["status"] == "confirmed"))
